@@ -25,6 +25,7 @@
 #include <rime/dict/dict_compiler.h>
 #include <rime/lever/deployment_tasks.h>
 #include <rime/lever/user_dict_manager.h>
+#include <rime/verif_hooks.h>
 #ifdef _WIN32
 #include <windows.h>
 #endif
@@ -442,6 +443,10 @@ bool ConfigFileUpdate::Run(Deployer* deployer) {
   }
   // build the config file if needs update
   the<Config> config(Config::Require("config")->Create(file_name_));
+#ifdef RIME_VERIF
+  RIME_VERIF_DECISION("config_needs_update:" + file_name_,
+                      ConfigNeedsUpdate(config.get()));
+#endif
   if (ConfigNeedsUpdate(config.get())) {
     if (!MaybeCreateDirectory(deployer->staging_dir)) {
       return false;
